@@ -121,8 +121,11 @@ CLAIMED = {
         'exactly the intended string (pathslice = the selected components of the path cut before every "/"), never a prefix. Tied by exhaustive differential '
         'runs of pathslice/pathjoin (all component shapes, ranges, buffer sizes; plain + ASan with exact-size buffers) and by binary runs with maildir path, '
         'interpolated destination, message path, host name, HOME, TMPDIR at every length in a window around PATH_MAX/NAME_MAX with decoys at truncations.',
-   note='The composition of the primitives along each path-carrying flow is not modelled in Coq (C18_no_truncated_path of DESIGN is not proved); it is tied by the '
-        'binary window runs. Trusted: driver, shim host-name pinning.',
+   note='Compositions of the primitives are modelled as path expressions (NamesDefs.pexp): for EVERY nesting of bounded copy and pathjoin the result is exactly the '
+        'intended string and exists iff every buffer on the way fits (C18_composed_exact / _defined / _never_truncates), with the message path, the delivered path and the '
+        'temporary-file template as instances whose verdict the window runs compare with the binary. That each call site of the code is such a nesting (and not a '
+        'hand-rolled copy) is tied by the binary window runs only; pathslice-derived maildir / subdir inference is proved as a primitive, not inside a nesting. '
+        'Trusted: driver, shim host-name pinning.',
    technique='Coq proof (loop invariant relating the copy loop to the component decomposition) + exhaustive differential correspondence + boundary-window runs',
    ref='DESIGN 6 C18'),
  'C01': dict(
@@ -206,9 +209,11 @@ CLAIMED = {
    text='Coq theorems: only exit status 0 lets the action list continue (127, signals, fork/wait failures are errors); a command condition maps 0 / other / 127 to '
         'match / no match / error; in the descriptor-table model every open, dup and temporary file carries close-on-exec so no sequence of operations leaves a '
         'descriptor to inherit; the argument vector has one element per configured string (interpolation itself: C12); after message_write the header table is '
-        'key-sorted so body / attachment lookups after a rewrite are sound. Tied by a recording C helper started by mdsort: argv, stdin bytes, open descriptors '
+        'key-sorted so body / attachment lookups after a rewrite are sound; the one environment variable mdsort itself writes (TZ, around every zone abbreviation of a Date '
+        'header) is, after any sequence of such headers, what mdsort was started with - unset, empty and set being different states (C13_environment_restored). Tied by a recording C helper started by mdsort: argv, stdin bytes, open descriptors '
         'with targets, exit status / signal, over exec options x positions among other actions x body encodings x maildir/stdin mode, command conditions, '
-        'capture arguments (present/empty/absent groups) and attachment blocks whose expected stdin comes from the extracted model. '
+        'capture arguments (present/empty/absent groups) and attachment blocks whose expected stdin comes from the extracted model; the helper also records environ and cwd, '
+        'compared with what mdsort was started with (TZ unset / empty / set / too long for the snapshot buffer) and with the model. '
         'Defects F-19 (temp file inherited), F-06 (undecoded body after rewrite), F-09 (use-after-free on nested multiparts) repaired by fix: commits.',
    note='The descriptor model states the discipline (every open sets the flag); that each call site follows it is tied by the helper observing the child\'s descriptors. '
         'fork/dup2/execvp themselves are not modelled.',
